@@ -13,7 +13,7 @@ pub fn root() -> PathBuf {
     PathBuf::from(std::env::var("VERIF_ROOT").unwrap_or_else(|_| "/verif".into()))
 }
 pub fn bin_for(profile: &str) -> PathBuf {
-    let r = root().join("target");
+    let r = std::env::var("GMC_TARGET_DIR").map(PathBuf::from).unwrap_or_else(|_| root().join("target"));
     match profile {
         "asan" => r.join("asan/x86_64-unknown-linux-gnu/rel/gmc"),
         "par" => r.join("par/chk/gmc-par"),
